@@ -1,3 +1,118 @@
 import Econf.Tool
+
+/-!
+  # C19 – econftool shows what an application would get
+
+  `toolShow` is the model of `pr_key_file` (util/econftool.c), written over the same listing and
+  getter models the library API has (`getGroups`, `getKeys`, `getExt`); the correspondence check
+  compares it byte for byte with the stdout of the freshly built tool.  Theorems: every block the
+  listing yields – the group-less one included – is part of the output (`C19_block_shown`), every
+  key the listing yields has its line there (`C19_key_shown`) and that line carries the key, ` = `
+  and the value lines of the first definition (`C19_key_line`); an object that has only group-less
+  keys is not shown as empty (`C19_groupless_only`, the historical defect F18).
+  Not covered by a theorem (correspondence check only): exit status of `syntax`, the file list of
+  `cat`, the escape translation of `--delimiters`.
+-/
+
+set_option linter.unusedSimpArgs false
+
 namespace Econf
+
+/-- the groups `econftool show` iterates over: the group-less block, then `econf_getGroups` -/
+def shownGroups (kf : KeyFile) : List (Option Str) :=
+  none :: (match getGroups kf with
+    | .ok gs => gs
+    | .error _ => []).map some
+
+theorem toolShow_eq (kf : KeyFile) : toolShow kf = ((shownGroups kf).map (toolGroup kf)).flatten := rfl
+
+/-- every block – the group-less one and one per listed section – is printed -/
+theorem C19_block_shown (kf : KeyFile) (g : Option Str) (hg : g ∈ shownGroups kf) :
+    toolGroup kf g <:+: toolShow kf := by
+  rw [toolShow_eq]
+  exact List.infix_of_mem_flatten (List.mem_map.mpr ⟨g, hg, rfl⟩)
+
+/-- every key the library lists for a block has its line in the block -/
+theorem C19_key_in_block (kf : KeyFile) (g : Option Str) (ks : List Str) (k : Str)
+    (hk : getKeys kf g = .ok ks) (hin : k ∈ ks) : toolKey kf g k <:+: toolGroup kf g := by
+  unfold toolGroup
+  rw [hk]
+  simp only
+  have h1 : toolKey kf g k <:+: (ks.map (toolKey kf g)).flatten :=
+    List.infix_of_mem_flatten (List.mem_map.mpr ⟨k, hin, rfl⟩)
+  have h2 : ∀ pre : Str, (ks.map (toolKey kf g)).flatten <:+: (pre ++ (ks.map (toolKey kf g)).flatten ++ [NL]) := by
+    intro pre; rw [List.append_assoc]; exact List.infix_append' _ _ _
+  exact h1.trans (h2 _)
+
+/-- every key of every listed block is printed -/
+theorem C19_key_shown (kf : KeyFile) (g : Option Str) (ks : List Str) (k : Str)
+    (hg : g ∈ shownGroups kf) (hk : getKeys kf g = .ok ks) (hin : k ∈ ks) : toolKey kf g k <:+: toolShow kf :=
+  (C19_key_in_block kf g ks k hk hin).trans (C19_block_shown kf g hg)
+
+theorem findIdx?_of_mem {α} (p : α → Bool) (l : List α) (h : ∃ e ∈ l, p e = true) :
+    ∃ i e, l.findIdx? p = some i ∧ l[i]? = some e ∧ p e = true := by
+  induction l with
+  | nil => obtain ⟨e, he, _⟩ := h; cases he
+  | cons a as ih =>
+    by_cases hpa : p a = true
+    · exact ⟨0, a, by simp [List.findIdx?_cons, hpa], rfl, hpa⟩
+    · obtain ⟨e, he, hpe⟩ := h
+      have : ∃ e ∈ as, p e = true := by
+        rcases List.mem_cons.mp he with rfl | he
+        · exact absurd hpe hpa
+        · exact ⟨e, he, hpe⟩
+      obtain ⟨i, e', h1, h2, h3⟩ := ih this
+      exact ⟨i + 1, e', by simp [List.findIdx?_cons, hpa, h1], by simpa using h2, h3⟩
+
+/-- the line of a listed key: the key, ` = `, and the value lines of the first definition of that
+    key in that block (nothing but the line break when it has no value) -/
+theorem C19_key_line (kf : KeyFile) (g : Option Str) (ks : List Str) (k : Str)
+    (hk : getKeys kf g = .ok ks) (hin : k ∈ ks) (hne : k ≠ []) :
+    ∃ e ∈ kf.entries, e.group = rawGroup g ∧ e.key = k ∧
+      toolKey kf g k = k ++ EQS ++ toolValueLines (extValues e.value) := by
+  unfold getKeys at hk
+  simp only at hk
+  split at hk
+  · cases hk
+  · simp only [Except.ok.injEq] at hk
+    subst hk
+    obtain ⟨e0, he0, hk0⟩ := List.mem_map.mp hin
+    have he0' := List.mem_filter.mp he0
+    have hex : ∃ e ∈ kf.entries, (fun e : Entry => e.group == rawGroup g && e.key == k) e = true :=
+      ⟨e0, he0'.1, by simp [he0'.2, hk0] ⟩
+    obtain ⟨i, e, h1, h2, h3⟩ := findIdx?_of_mem _ _ hex
+    have hmem : e ∈ kf.entries := List.mem_of_getElem? h2
+    simp only [Bool.and_eq_true, beq_iff_eq] at h3
+    refine ⟨e, hmem, h3.1, h3.2, ?_⟩
+    have hke : k.isEmpty = false := by cases k with
+      | nil => exact absurd rfl hne
+      | cons a as => rfl
+    unfold toolKey getExt findKey findIdx
+    simp only [hke, Bool.false_eq_true, if_false, h1, h2]
+
+/-- an object with group-less keys only (the most common kind of file) is not shown as empty:
+    its first key line is part of the output -/
+theorem C19_groupless_only (kf : KeyFile) (e : Entry) (he : e ∈ kf.entries) (hg : e.group = NONE) (hk : e.key ≠ []) :
+    ∃ ks, getKeys kf none = .ok ks ∧ e.key ∈ ks ∧ toolKey kf none e.key <:+: toolShow kf ∧ toolKey kf none e.key ≠ [] := by
+  have hmem : e.key ∈ (kf.entries.filter (fun x => x.group == NONE)).map (·.key) :=
+    List.mem_map.mpr ⟨e, List.mem_filter.mpr ⟨he, by simp [hg]⟩, rfl⟩
+  have hks : getKeys kf none = .ok ((kf.entries.filter (fun x => x.group == NONE)).map (·.key)) := by
+    unfold getKeys rawGroup
+    simp only
+    split
+    · rename_i hh
+      have : (kf.entries.filter (fun x => x.group == NONE)).map (·.key) = [] := by simpa using hh
+      rw [this] at hmem; cases hmem
+    · rfl
+  refine ⟨_, hks, hmem, C19_key_shown kf none _ _ (by simp [shownGroups]) hks hmem, ?_⟩
+  obtain ⟨e', _, _, _, hline⟩ := C19_key_line kf none _ e.key hks hmem hk
+  rw [hline]
+  cases hkk : e.key with
+  | nil => exact absurd hkk hk
+  | cons a as => simp
+
+/-- non-vacuity: `k=v` alone; the output is `k = v⏎⏎` -/
+example : toolShow { entries := [{ group := NONE, key := [0x6b], value := some [0x76], cb := none, ca := none, line := 1, quotes := false }],
+                     groups := [NONE] } = [0x6b, 0x20, 0x3d, 0x20, 0x76, 0x0a, 0x0a] := by decide
+
 end Econf
